@@ -99,7 +99,9 @@ class FuncLower(ExprMixin):
         L = self.L
         f = self.f
         n = f.node
-        fty = L.ty(n['type'])
+        L.local_typedefs = {}
+        L.current_rec = f.rec
+        fty = L.fn_type(n)
         if fty[0] != 'fn':
             self.err(n, 'function type expected, got %r' % (fty,))
         self.ret_t = fty[1]
@@ -145,9 +147,12 @@ class FuncLower(ExprMixin):
         if ret_c == ('base', 'void', {'kind': 'builtin'}) or (ret_c[0] == 'base' and ret_c[1] == 'void'):
             self.ret_void = True
         self.proto = proto
+        if n.get('name') == '__invoke' and f.rec is not None and f.rec.is_lambda:
+            return proto, self.synth_invoke()
         if f.body is None and not (f.kind == 'dtor' and L._synthesizable(f)):
             return proto, None
         self.scopes.append(Scope('fn'))
+        self.collect_local_typedefs(f.node)
         if f.kind == 'ctor':
             self.lower_ctor_inits()
         if f.body is not None:
@@ -161,6 +166,57 @@ class FuncLower(ExprMixin):
                 and f.node.get('name') != 'main':
             self.emit('FRGV_MISSING_RETURN("%s");' % f.cname)
         return proto, self.lines
+
+    def synth_invoke(self):
+        """body of a captureless lambda's static invoker: call operator() on an (empty) closure object"""
+        L = self.L
+        rec = self.f.rec
+        ops = [m for m in rec.methods if m.get('name') == 'operator()' and
+               any(c.get('kind') == 'CompoundStmt' for c in m.get('inner', ()))]
+        if len(ops) != 1:
+            raise ExtractError('%s: cannot find the call operator of the lambda' % self.f.cname)
+        op = L.func_of(ops[0]['id'])
+        L.need_func(op)
+        args = ['(&__closure)'] + [self.locals[p['id']][0] for p in self.f.params]
+        lines = ['\tstruct %s __closure;' % rec.cname]
+        call = '%s(%s)' % (op.cname, ', '.join(args))
+        lines.append('\t%s%s;' % ('' if self.ret_void else 'return ', call))
+        return lines
+
+    def _deduce_return_type(self, n):
+        def walk(x):
+            for c in x.get('inner', ()):
+                if not isinstance(c, dict):
+                    continue
+                if c.get('kind') == 'ReturnStmt':
+                    es = [e for e in c.get('inner', ()) if e]
+                    if es and 'type' in es[0]:
+                        try:
+                            return self.L.ty(es[0]['type'])
+                        except ExtractError:
+                            pass
+                if c.get('kind') != 'LambdaExpr':
+                    r = walk(c)
+                    if r is not None:
+                        return r
+            return None
+        return walk(n)
+
+    def collect_local_typedefs(self, n):
+        lt = {}
+        def walk(x):
+            for c in x.get('inner', ()):
+                if not isinstance(c, dict):
+                    continue
+                if c.get('kind') in ('TypeAliasDecl', 'TypedefDecl') and 'name' in c:
+                    t = c['type']
+                    lt[c['name']] = t.get('desugaredQualType') or t['qualType']
+                if c.get('kind') == 'EnumDecl' and c.get('name') and c.get('id') in self.L.enums:
+                    lt[c['name']] = self.L.printed_name(c)
+                if c.get('kind') not in ('LambdaExpr',):
+                    walk(c)
+        walk(n)
+        self.L.local_typedefs = lt
 
     def _ends_with_return(self, body):
         ks = [c for c in kids(body) if c]
@@ -216,6 +272,8 @@ class FuncLower(ExprMixin):
                 fd = ci['anyInit']
                 fname, ft = self.field_of(rec, fd['id'])
                 target = E('this->%s' % fname)
+                if init is not None and init.get('kind') == 'CXXDefaultInitExpr':
+                    init = self.field_default_init(rec, fd['id'], init)
                 self.init_object(target, ft, init, is_field=True)
             elif 'baseInit' in ci:
                 bt = L.ty(ci['baseInit'])
@@ -237,6 +295,14 @@ class FuncLower(ExprMixin):
                 self.flush_pre(fe); self.flush_post(fe)
             else:
                 self.err(ci, 'unknown ctor initializer')
+
+    def field_default_init(self, rec, fid, n):
+        for fl in rec.fields:
+            if fl[1]['id'] == fid:
+                ini = [c for c in kids(fl[1]) if c and not c.get('kind', '').endswith('Attr')]
+                if ini:
+                    return ini[0]
+        self.err(n, 'default member initializer not found')
 
     def field_of(self, rec, fid):
         for fl in rec.fields:
@@ -374,9 +440,9 @@ class FuncLower(ExprMixin):
 
     def var_decl(self, d):
         L = self.L
-        t = L.ty(d['type'])
         init = [c for c in kids(d) if c and not c.get('kind', '').endswith('Attr')]
         init = init[0] if init else None
+        t = None
         # lambda variables: take the closure record from the initializer (names may be ambiguous)
         if init is not None:
             lam = self._find_lambda(init)
@@ -385,6 +451,8 @@ class FuncLower(ExprMixin):
                 if r is not None:
                     L.need_record(r)
                     t = ('base', 'struct ' + r.cname, {'kind': 'record', 'rec': r})
+        if t is None:
+            t = L.ty(d['type'])
         nm = self.uniq(d.get('name'))
         if d.get('storageClass') == 'static':
             return self.static_local(d, nm, t, init)
@@ -452,6 +520,11 @@ class FuncLower(ExprMixin):
             return
         if t[0] == 'arr':
             return self.init_array(target, t, init)
+        if self._unwrap(init).get('kind') in ('CXXConstructExpr', 'CXXTemporaryObjectExpr'):
+            with self.fullexpr() as fe:
+                self.expr_into(self._unwrap(init), addr(target))
+            self.flush_pre(fe); self.flush_post(fe)
+            return
         with self.fullexpr() as fe:
             e = self.expr(init)
         self.flush_pre(fe)
